@@ -63,7 +63,8 @@ def dyadic_cases(draw, tier="quick"):
                 targets.append(draw(st.integers(-64, 64)) / 4.0)
     return {"contracts": specs, "deposit": deposit, "prior": prior, "targets": targets, "measure": measure,
             "thr": thr, "fractional": draw(st.booleans()), "cash_entry": draw(st.booleans()),
-            "fees": [0.0, 0.0], "rate": 0.0, "markup": 0.0, "ops": []}
+            "fees": [0.0, 0.0], "rate": 0.0, "markup": 0.0, "ops": [],
+            "open_order": draw(st.permutations(list(range(n)))), "request_order": draw(st.permutations(list(range(n))))}
 
 
 @st.composite
@@ -91,7 +92,8 @@ def free_cases(draw, tier="quick"):
     return {"contracts": specs, "deposit": draw(st.sampled_from([100.0, 1e4, 12345.678])), "prior": prior,
             "targets": targets, "measure": measure, "thr": thr, "fractional": draw(st.booleans()),
             "cash_entry": draw(st.booleans()), "fees": list(draw(B.fee_schedules())), "rate": 0.0, "markup": 0.0,
-            "moves": [list(m) for m in moves], "ops": []}
+            "moves": [list(m) for m in moves], "ops": [],
+            "open_order": draw(st.permutations(list(range(n)))), "request_order": draw(st.permutations(list(range(n))))}
 
 
 def expected_trades(lab, case, nlv, exact):
@@ -155,8 +157,10 @@ def run_filter(case, exact):
     lab = B.Lab(case)
     led, br, n = lab.ledger, lab.broker, lab.n
     # prior holdings
+    open_order = case.get("open_order") or list(range(n))
     if exact:
-        for i, w in enumerate(case["prior"]):
+        for i in open_order:                      # positions are opened in a generated order
+            w = case["prior"][i]
             if w != 0:
                 lab.transact(i, w * case["deposit"] / (case["contracts"][i]["p0"] * lab.mult[i]))
     else:
@@ -165,7 +169,7 @@ def run_filter(case, exact):
             # prior positions inside the documented epsilon snapping band are outside the domain
             tiny = abs(w) * case["deposit"] / (case["contracts"][i]["p0"] * lab.mult[i]) < 10 * B.QMIN
             prior.append(None if (w == 0 or tiny) else w)
-        reb0 = lab.rebalancing(prior, "weight", 60)
+        reb0 = lab.rebalancing(prior, "weight", 60, order=open_order)
         try:
             br.rebalance(reb0)
         except EndOfEpisodeError:
@@ -184,8 +188,9 @@ def run_filter(case, exact):
     if band:
         res.excluded = "indifference-band"
         return res
-    cs = [lab.contracts[i] for i, w in enumerate(case["targets"]) if w is not None]
-    ws = [w for w in case["targets"] if w is not None]
+    req = [i for i in (case.get("request_order") or list(range(n))) if case["targets"][i] is not None]   # listed in a generated order
+    cs = [lab.contracts[i] for i in req]
+    ws = [case["targets"][i] for i in req]
     if case["cash_entry"]:
         cs = cs + [lab.cash]
         ws = ws + [0.25]
@@ -233,6 +238,10 @@ def run_filter(case, exact):
     for f in flags:
         res.tag(f)
     res.tag("lots" if not case["fractional"] else "fractional", case["measure"], "thr=%g" % case["thr"])
+    held_set = {i for i in range(n) if led.q[i] != 0}
+    tgt_set = {i for i in range(n) if case["targets"][i] not in (None, 0.0)}
+    if len(held_set) >= 2 and held_set == tgt_set and [i for i in open_order if i in held_set] != [i for i in req if i in tgt_set]:
+        res.tag("same-contracts-held-and-targeted-in-different-order")
     return res
 
 
